@@ -129,10 +129,14 @@ class AstTreeProfiler:
         profiled_imports = []
         argsort_tree_indexes = sorted(list(tree_imports_to_profile_dict), reverse=True)
         for tree_index in argsort_tree_indexes:
-            name = tree_imports_to_profile_dict[tree_index]
-            expr = ast_create_profile_node(name)
-            tree.body.insert(tree_index + 1, expr)
-            profiled_imports.append(name)
+            names = tree_imports_to_profile_dict[tree_index]
+            if isinstance(names, str):
+                names = [names]
+            # Insert after the import, keeping the order of the names
+            for name in reversed(names):
+                expr = ast_create_profile_node(name)
+                tree.body.insert(tree_index + 1, expr)
+            profiled_imports.extend(names)
         if profile_full_script:
             tree = self._ast_transformer_class_handler(profile_imports=profile_imports,
                                                        profiled_imports=profiled_imports).visit(tree)
